@@ -1,7 +1,7 @@
 (* C01 — every returned Manifold is a closed oriented 2-manifold or an empty error.
    Only statements closed by `exact`, each followed by Print Assumptions. *)
 From Coq Require Import ZArith List Bool.
-From MV Require Import Topo.CheckMeshDefs Topo.CheckMesh.
+From MV Require Import Topo.CheckMeshDefs Topo.CheckMesh Topo.PipelineDefs Topo.Pipeline.
 Import ListNotations.
 Local Open Scope Z_scope.
 
@@ -28,3 +28,37 @@ Theorem check_counts_iff :
      exists k, nV - repE + Z.of_nat (length tris) = 2 * k /\ repGenus = 1 - k).
 Proof. exact check_counts_iff_lemma. Qed.
 Print Assumptions check_counts_iff.
+
+(* Abstract interpretation of the pass sequences that (re)build an Impl.  For every
+   pass list, every start state (any state for a pipeline that fills a fresh Impl;
+   a clean state - no stranded vertex, no tombstone, sorted - for one that starts
+   from an existing Manifold) and every run allowed by the per-pass effect relations
+   `exec`: if pipeline_ok accepts the list, the run ends clean.  The pass lists are
+   regenerated from the C++ on every run (Gen/Pipelines.v) and judged by the
+   extracted pipeline_ok; the effect relations are hand-written from the code
+   (trusted; the RemoveUnreferencedVerts row is tied to arrays below). *)
+Theorem pipeline_ok_sound :
+  forall (fresh : bool) (ps : list pass) (s s' : cstate),
+    (fresh = false -> clean s) -> exec_all ps s s' -> pipeline_ok fresh ps = true -> clean s'.
+Proof. exact pipeline_ok_sound_lemma. Qed.
+Print Assumptions pipeline_ok_sound.
+
+(* hypotheses satisfiable / the analysis is not vacuous: the shape of Impl::Refine on the
+   pinned tree is rejected and has an allowed run that ends with a stranded vertex;
+   with RemoveUnreferencedVerts before SortGeometry it is accepted. *)
+Example refine_shape_rejected : pipeline_ok false [Subdivide; SortGeometry] = false.
+Proof. exact refine_shape_not_ok. Qed.
+Example refine_shape_has_bad_run :
+  exists s', exec_all [Subdivide; SortGeometry] (mkC 0 0 true) s' /\ n_stranded s' = 1%nat.
+Proof. exact refine_shape_bad_run. Qed.
+Example refine_fixed_shape_accepted : pipeline_ok false [Subdivide; RemoveUnreferencedVerts; SortGeometry] = true.
+Proof. exact refine_fixed_shape_ok. Qed.
+
+(* The RemoveUnreferencedVerts row on arrays (isnan.[v] = vertPos_[v] is NaN; starts =
+   halfedge start vertices): afterwards no vertex is both non-NaN and unreferenced, for
+   all arrays. *)
+Theorem remove_unreferenced_no_stranded :
+  forall (starts : list Z) (isnan : list bool),
+    count_stranded starts (remove_unreferenced starts isnan) = 0%nat.
+Proof. exact remove_unreferenced_spec. Qed.
+Print Assumptions remove_unreferenced_no_stranded.
